@@ -43,11 +43,28 @@ func Build(name string) *Scenario {
 		n, _ := strconv.Atoi(v)
 		sc.MaxVer = byte(n)
 	}
+	if v, ok := p["abandon"]; ok {
+		sc.Abandon, _ = strconv.Atoi(v)
+	}
 	if v, ok := p["auth"]; ok {
 		sc.AuthSize, _ = strconv.Atoi(v)
 	}
 	_, sc.Faults.Drop = p["drop"]
 	_, sc.Faults.Kill = p["kill"]
+	_, sc.Faults.Wipe = p["wipe"]
+	if v, ok := p["outage"]; ok {
+		sc.Faults.Outage, _ = time.ParseDuration(v)
+	}
+	if v, ok := p["down"]; ok {
+		sc.Faults.Down, _ = time.ParseDuration(v)
+	}
+	_, sc.ClientGivesUp = p["noretry"]
+	if v, ok := p["hold"]; ok {
+		sc.Hold, _ = time.ParseDuration(v)
+	}
+	if v, ok := p["dialto"]; ok {
+		sc.DialTimeout, _ = time.ParseDuration(v)
+	}
 	if v, ok := p["maxf"]; ok {
 		sc.Faults.Max, _ = strconv.Atoi(v)
 	}
@@ -169,6 +186,16 @@ func monExclusive(w *World) {
 					"%s: connection #%d was handed out at %v while connection #%d was still open (its Done() channel not closed)",
 					s.Side, s.Index, s.At, s.Index-1)
 			}
+			if s.BrokenEarly != "" {
+				w.fail("connection-broken-under-its-users/"+s.Side,
+					"%s: with no relay fault at all and before either application had begun to close connection #%d, a call on it failed: %s",
+					s.Side, s.Index, s.BrokenEarly)
+			}
+			if s.PrevInUse {
+				w.fail("second-connection-while-previous-in-use/"+s.Side,
+					"%s: connection #%d was handed out at %v although, with no relay fault at all, neither application had begun to close connection #%d: it was taken away from under its users",
+					s.Side, s.Index, s.At, s.Index-1)
+			}
 		}
 	}
 }
@@ -227,7 +254,7 @@ func finalTransfer(w *World, x *vrt.Exec) {
 	}
 	for _, l := range [][]*Session{w.sessC, w.sessS} {
 		for _, s := range l {
-			if s.Success || s.HsErr != "" || s.ReadErr != "" || s.WriteErr != "" {
+			if s.Success || s.ErrBeforeEnd {
 				if !s.Success {
 					w.reached["visible-failure"] = true
 				}
@@ -316,7 +343,10 @@ func finalSessions(w *World, x *vrt.Exec) {
 	if firstC == nil || firstS == nil {
 		return
 	}
-	if firstC.SendSID != firstS.RecvSID || firstC.RecvSID != firstS.SendSID {
+	// (with relay faults a session can complete on one side only, so the
+	// first completed session of the client need not be the first completed
+	// session of the server)
+	if w.faults == 0 && (firstC.SendSID != firstS.RecvSID || firstC.RecvSID != firstS.SendSID) {
 		w.fail("rendezvous/sides-differ", "the first session: client and server use different stream ids")
 		return
 	}
